@@ -83,6 +83,15 @@ def ev(t, Q, l, u, env):
         return r
     if k == 'ite':
         return ev(t[2] if truth(ev(t[1], Q, l, u, env), l, u) else t[3], Q, l, u, env)
+    if k == 'cmp' and t[1] in ('in', 'not in') and t[3][0] == 'call' and t[3][1] == ('name', 'range') and 1 <= len(t[3][2]) <= 2:
+        # x in range(lo, hi) for an integer x: lo <= x < hi
+        args = t[3][2]
+        lo_t = ('const', 0) if len(args) == 1 else args[0]
+        hi_t = args[-1]
+        inside = ('bool', 'and', (('cmp', '>=', t[2], lo_t), ('cmp', '<', t[2], hi_t)))
+        r = ev(inside, Q, l, u, env)
+        r = truth(r, l, u)
+        return r if t[1] == 'in' else not r
     if k == 'cmp':
         op = t[1]
         a = ev(t[2], Q, l, u, env); b = ev(t[3], Q, l, u, env)
